@@ -37,6 +37,19 @@ impl SignedPeersStore {
         };
     }
 
+    /// (number of info hashes, largest per-info-hash peer count)
+    #[cfg(mainline_verif)]
+    pub fn verif_sizes(&self) -> (usize, usize) {
+        (
+            self.info_hashes.len(),
+            self.info_hashes
+                .iter()
+                .map(|(_, l)| l.len())
+                .max()
+                .unwrap_or(0),
+        )
+    }
+
     /// Returns a random set of peers per an info hash.
     pub fn get_random_peers(&mut self, info_hash: &Id) -> Option<Vec<SignedAnnounce>> {
         if let Some(info_hash_lru) = self.info_hashes.get(info_hash) {
